@@ -105,7 +105,8 @@ theorem side_remaining (mk : Nat → Leg) (extra : Nat) (hextra : N2.length ≤ 
   rw [remaining_singleton _ 0 _ (N2.idxOf (f next)) (by simpa using hj)]
   · have := getElem?_map_idxOf mk [] (hmemB next hnext)
     rw [List.append_nil, List.getElem?_eq_getElem (by simpa using hj)] at this
-    simpa using this
+    simp at this
+    simp
   · intro i hi hne
     simp only [Nat.zero_add, List.mem_append, List.mem_map, List.mem_singleton]
     left
@@ -248,8 +249,7 @@ theorem braTensor_general (ketNode braNode : Node) (next : Nat) (f : Trafo) (x :
     · apply pick_single
       have : F.length + 2 = ([Leg.ketNb next] ++ F.map Leg.blkBra ++ [x]).length := by simp
       rw [this]
-      have := getElem?_append_mid ([Leg.ketNb next] ++ F.map Leg.blkBra ++ [x]) [] Leg.opOut
-      simpa using this
+      simp
   have pb : pick (braT braNode).legs (F.map (fun n => braNode.nbrs.idxOf (f n)) ++ [braNode.nbrs.length])
       = some (F.map (fun n => Leg.braNb (f n)) ++ [Leg.braPhys]) := by
     apply pick_append
